@@ -108,7 +108,7 @@ func DecodeTypeSize(b []byte) (format.Type, int, error) {
 
 	case format.TypeBytes:
 		dataSize, m := decodeSize(v)
-		if m < 0 {
+		if m <= 0 {
 			return 0, 0, errors.New("decode bytes: invalid data size")
 		}
 		size := n + m + int(dataSize)
@@ -119,7 +119,7 @@ func DecodeTypeSize(b []byte) (format.Type, int, error) {
 
 	case format.TypeString:
 		dataSize, m := decodeSize(v)
-		if m < 0 {
+		if m <= 0 {
 			return 0, 0, errors.New("decode string: invalid data size")
 		}
 		size := n + m + int(dataSize) + 1 // +1 for null terminator
@@ -135,7 +135,7 @@ func DecodeTypeSize(b []byte) (format.Type, int, error) {
 
 		// Table size
 		tableSize, m := decodeSize(b[:end])
-		if m < 0 {
+		if m <= 0 {
 			return 0, 0, errors.New("decode list: invalid table size")
 		}
 		end -= m
@@ -143,7 +143,7 @@ func DecodeTypeSize(b []byte) (format.Type, int, error) {
 
 		// Data size
 		dataSize, m := decodeSize(b[:end])
-		if m < 0 {
+		if m <= 0 {
 			return 0, 0, errors.New("decode list: invalid data size")
 		}
 		end -= m
@@ -161,7 +161,7 @@ func DecodeTypeSize(b []byte) (format.Type, int, error) {
 
 		// Table size
 		tableSize, m := decodeSize(b[:end])
-		if m < 0 {
+		if m <= 0 {
 			return 0, 0, errors.New("decode message: invalid table size")
 		}
 		end -= m
@@ -169,7 +169,7 @@ func DecodeTypeSize(b []byte) (format.Type, int, error) {
 
 		// Data size
 		dataSize, m := decodeSize(b[:end])
-		if m < 0 {
+		if m <= 0 {
 			return 0, 0, fmt.Errorf("decode message: invalid data size")
 		}
 		end -= m
@@ -187,7 +187,7 @@ func DecodeTypeSize(b []byte) (format.Type, int, error) {
 
 		// Data size
 		dataSize, m := decodeSize(b[:end])
-		if n < 0 {
+		if m <= 0 {
 			return 0, 0, errors.New("decode struct: invalid data size")
 		}
 
